@@ -1,4 +1,5 @@
 import Verif.Model.Conc
+import Verif.Model.AdminSlice
 import Verif.Generated.Locks
 /-!
   C19 — concurrent traffic and administration are race-free and atomically visible.
@@ -439,3 +440,128 @@ theorem reviewed_current : reviewedBenign.all (fun x => (unsafeSites table).cont
   decide +kernel
 
 end Verif.Conc
+
+/-! ## Removing a provisioner with its administrators: the walk over the live per-provisioner slice
+
+  `RemoveProvisioner` answers only after every administrator of the provisioner is gone (all-or-nothing as seen by the
+  requests that follow). The loop ranges over the slice `Collection.Remove` edits; that this is complete for every
+  number of administrators is a property of the swap-delete, not of slices in general (`walk_shift_fails`). -/
+namespace Verif.AdminSlice
+
+/-- with distinct ids in the stored slice, the scan rewrites exactly the one matching index -/
+theorem scan_unique (x L : Nat) (arr : Nat → Nat) (i : Nat)
+    (hx : arr i = x) (huniq : ∀ k, k < L → arr k = x → k = i) :
+    ∀ k, k ≤ L → scan x L arr k = if i < k then (upd arr i (arr (L - 1)), true) else (arr, false) := by
+  intro k
+  induction k with
+  | zero => intro _; simp [scan]
+  | succ k ih =>
+    intro hk
+    have ih' := ih (by omega)
+    simp only [scan, ih']
+    by_cases hik : i < k
+    · have hne : k ≠ i := by omega
+      have : ¬ (upd arr i (arr (L - 1)) k = x) := by
+        simp only [upd, hne, if_false]
+        intro h; exact hne (huniq k (by omega) h)
+      simp [hik, this, show i < k + 1 by omega]
+    · by_cases hik2 : i = k
+      · subst hik2; simp [hx]
+      · have : ¬ (arr k = x) := by intro h; exact hik2 (huniq k (by omega) h).symm
+        simp [hik, this, show ¬ i < k + 1 by omega]
+
+theorem removeSwap_unique (s : S) (x i : Nat) (hi : i < s.len)
+    (hx : s.arr i = x) (huniq : ∀ k, k < s.len → s.arr k = x → k = i) :
+    removeSwap s x = some ⟨upd s.arr i (s.arr (s.len - 1)), s.len - 1⟩ := by
+  simp [removeSwap, scan_unique x s.len s.arr i hx huniq s.len (Nat.le_refl _), hi]
+
+/-- the backing array after `j` iterations of the walk over `n` administrators -/
+def shape (orig : Nat → Nat) (n j : Nat) : Nat → Nat :=
+  fun p => if p < j ∧ 2 * p + 1 ≤ n then orig (n - 1 - p) else orig p
+
+theorem walk_swap_inv (orig : Nat → Nat) (n : Nat)
+    (hinj : ∀ a b, a < n → b < n → orig a = orig b → a = b) :
+    ∀ f j, j + f = n → ∃ s', walk removeSwap f j ⟨shape orig n j, n - j⟩ = some s' ∧ s'.len = 0 := by
+  intro f
+  induction f with
+  | zero => intro j hj; exact ⟨_, rfl, by simp; omega⟩
+  | succ f ih =>
+    intro j hj
+    let i := if 2 * j + 1 ≤ n then j else n - 1 - j
+    have hread : shape orig n j j = orig j := by simp [shape]
+    have hi : i < n - j := by simp only [i]; split <;> omega
+    have hxi : shape orig n j i = orig j := by
+      simp only [i, shape]
+      split
+      · simp
+      · rename_i h
+        have : n - 1 - j < j ∧ 2 * (n - 1 - j) + 1 ≤ n := by omega
+        simp only [this, and_self, if_true]
+        congr 1; omega
+    have huniq : ∀ k, k < n - j → shape orig n j k = orig j → k = i := by
+      intro k hk hk2
+      simp only [shape] at hk2
+      simp only [i]
+      split at hk2
+      · rename_i h
+        have := hinj _ _ (by omega) (by omega) hk2
+        split <;> omega
+      · rename_i h
+        have := hinj _ _ (by omega) (by omega) hk2
+        split <;> omega
+    have hrm := removeSwap_unique ⟨shape orig n j, n - j⟩ (orig j) i hi hxi huniq
+    have hnext : upd (shape orig n j) i (shape orig n j (n - j - 1)) = shape orig n (j + 1) := by
+      funext p
+      simp only [upd, shape, i]
+      by_cases h1 : 2 * j + 1 ≤ n
+      · simp only [h1, if_true]
+        by_cases hp : p = j
+        · subst hp
+          have : ¬ (n - p - 1 < p ∧ 2 * (n - p - 1) + 1 ≤ n) := by omega
+          simp only [this, if_false, if_true]
+          have : p < p + 1 ∧ 2 * p + 1 ≤ n := by omega
+          simp only [this, and_self, if_true]
+          congr 1; omega
+        · simp only [hp, if_false]
+          have : (p < j + 1 ∧ 2 * p + 1 ≤ n) ↔ (p < j ∧ 2 * p + 1 ≤ n) := by omega
+          simp only [this]
+      · simp only [h1, if_false]
+        by_cases hp : p = n - 1 - j
+        · subst hp
+          have h2 : n - j - 1 < j ∧ 2 * (n - j - 1) + 1 ≤ n := by omega
+          have h3 : n - 1 - j < j + 1 ∧ 2 * (n - 1 - j) + 1 ≤ n := by omega
+          simp only [h2, h3, and_self, if_true]
+          congr 1; omega
+        · simp only [hp, if_false]
+          have : (p < j + 1 ∧ 2 * p + 1 ≤ n) ↔ (p < j ∧ 2 * p + 1 ≤ n) := by omega
+          simp only [this]
+    obtain ⟨s', hs', hl⟩ := ih (j + 1) (by omega)
+    refine ⟨s', ?_, hl⟩
+    simp only [walk, hread]
+    rw [hrm]
+    simp only [hnext]
+    have : n - j - 1 = n - (j + 1) := by omega
+    rw [this]; exact hs'
+
+end Verif.AdminSlice
+
+namespace Verif.AdminSlice
+/-- **RemoveProvisioner's walk is complete** for every number of administrators: ranging over the live slice while
+`Collection.Remove` swap-deletes from it removes every administrator and never fails. -/
+theorem walk_swap_removes_all (orig : Nat → Nat) (n : Nat)
+    (hinj : ∀ a b, a < n → b < n → orig a = orig b → a = b) :
+    ∃ s', walk removeSwap n 0 ⟨orig, n⟩ = some s' ∧ s'.len = 0 := by
+  have h := walk_swap_inv orig n hinj n 0 (by omega)
+  have hs : shape orig n 0 = orig := by funext p; simp [shape]
+  simpa [hs] using h
+
+/-- the same walk over the order-preserving delete stops half way with three administrators: after the first removal
+the second iteration reads the third administrator, the third iteration reads it again and `Remove` fails -/
+theorem walk_shift_fails : (walk removeShift 3 0 ⟨id, 3⟩).isNone = true := by decide
+
+/-- … leaving one of the three behind (the state a caller sees after the failed request) -/
+theorem walk_shift_partial :
+    (removeShift ⟨id, 3⟩ 0).bind (fun s => (removeShift s (s.arr 1)).map (fun s' => (s'.len, s'.arr 0))) = some (1, 1) := by decide
+
+example : (walk removeSwap 5 0 ⟨id, 5⟩).map (·.len) = some 0 := by decide
+end Verif.AdminSlice
